@@ -31,9 +31,11 @@ PARAMS = {
     'HS': [{}, {'high_value': 50.0}],
     'HCLJ': [{'epsilon': 0.5}, {'epsilon': -0.5}, {'epsilon': 1.3, 'high_value': 1e4}],
     'EXP': [{'epsilon': 0.3, 'alpha': 0.5}, {'epsilon': -0.3, 'alpha': 0.5}, {'epsilon': 1.0, 'alpha': 1.5, 'high_value': 1e3},
-            {'epsilon': 0.4, 'alpha': 0.002}, {'epsilon': -0.4, 'alpha': 0.002}],      # sigma/alpha > 710: exp() overflows deep inside the core
+            {'epsilon': 0.4, 'alpha': 0.002}, {'epsilon': -0.4, 'alpha': 0.002},
+            {'epsilon': 0.3, 'alpha': 0.5, 'high_value': 10 ** 6}],            # an integer overlap value, as in the class docstring      # sigma/alpha > 710: exp() overflows deep inside the core
     'LJ': [{'epsilon': 0.2}, {'epsilon': 1.0, 'rcut': 2.5}, {'epsilon': 1.0, 'rcut': 2.5, 'shift': True},
-           {'epsilon': 0.2, 'rcut': 1.7, 'shift': True}, {'epsilon': -0.4, 'rcut': 3.0, 'shift': False}],
+           {'epsilon': 0.2, 'rcut': 1.7, 'shift': True}, {'epsilon': -0.4, 'rcut': 3.0, 'shift': False},
+           {'epsilon': 0.35, 'rcut': 2.5, 'shift': True}, {'epsilon': -0.4, 'rcut': 2.5, 'shift': True}],
     'WCA': [{'epsilon': 0.5}, {'epsilon': 1.0}],
 }
 GRIDS_Q = [[128, 0.1], [128, 0.05], [96, 0.2]]
@@ -225,6 +227,37 @@ def case_hist(rec, c):
     rec.outcome(core.digest([name, p, c['start'], c['ops']]))
 
 
+def case_multi(rec, c):
+    """Every parameter set of one class as separate objects with the SAME sigma alive in one process, constructed in the
+    given order and evaluated in the given order (and once more in reverse): each object answers with its own parameters."""
+    name, sigma, (L, dr) = c['cls'], c['sigma'], c['grid']
+    dom = build.make_domain({'length': L, 'dr': dr})
+    if not build.domain_ok(dom):
+        rec.count('skipped_preconditions')
+        return
+    r = dom.r
+    plist = [PARAMS_ALL[name][i] for i in c['order']]
+    objs = [build.make_potential([name, dict(p, sigma=sigma)]) for p in plist]
+    rec.state()
+    for rnd, seq in enumerate((range(len(objs)), reversed(range(len(objs))))):
+        for i in seq:
+            with np.errstate(all='ignore'):
+                try:
+                    got = np.array(objs[i].calculate(r), dtype=float)
+                except Exception as e:
+                    rec.fail(c, '%s%r: calculate raised %s' % (CLS[name], plist[i], type(e).__name__), tags(name, 'raises'))
+                    return
+            rec.trans()
+            if compare(rec, dict(c, which=i, round=rnd), name, plist[i], r, sigma, got,
+                       'object %d of %d %s objects with the same sigma alive in one process' % (i + 1, len(objs), CLS[name])):
+                return
+    rec.trace()
+    rec.outcome(core.digest([name, sigma, c['order']]))
+
+
+PARAMS_ALL = PARAMS
+
+
 def case_wire(rec, c):
     """sigma defaulting and wiring through createPRISM for one pair of diameters."""
     name, p, (L, dr), (dA, dB), kT = c['cls'], c['params'], c['grid'], c['diam'], c['kT']
@@ -235,6 +268,8 @@ def case_wire(rec, c):
         pp_ = dict(p)
         if key == 'A|B' and explicit is not None:
             pp_['sigma'] = explicit
+            if c.get('by_attribute'):
+                pp_['sigma_by_attribute'] = True
         spec['pairs'][key] = {'closure': ['PY', False], 'potential': [name, pp_], 'omega': ['SingleSite' if key != 'A|B' else 'NoIntra', {}]}
     rec.state()
     rec.trans()
@@ -269,7 +304,7 @@ def case_wire(rec, c):
 def replay(rec, case):
     with warnings.catch_warnings():
         warnings.simplefilter('ignore')
-        {'eval': case_eval, 'wire': case_wire, 'hist': case_hist}[case['kind']](rec, case)
+        {'eval': case_eval, 'wire': case_wire, 'hist': case_hist, 'multi': case_multi}[case['kind']](rec, case)
 
 
 def sigmas_for(dr, count):
@@ -284,7 +319,11 @@ def _worker(item):
     rec = Rec('C10')
     with warnings.catch_warnings():
         warnings.simplefilter('ignore')
-        if item[0] == 'hist':
+        if item[0] == 'multi':
+            _, name, n = item
+            for order in itertools.permutations(range(n)) if n <= 4 else [tuple(range(n)), tuple(reversed(range(n)))] + [tuple(list(range(i, n)) + list(range(i))) for i in range(1, n)]:
+                case_multi(rec, {'kind': 'multi', 'cls': name, 'sigma': 1.2, 'grid': [96, 0.1], 'order': list(order)})
+        elif item[0] == 'hist':
             _, name, p, depth = item
             for start in (None, 1.1):
                 for d in range(1, depth + 1):
@@ -304,6 +343,7 @@ def _worker(item):
                 for dB in dBs:
                     case_wire(rec, {'kind': 'wire', 'cls': name, 'params': p, 'grid': grid, 'diam': [dA, dB], 'kT': kT})
             case_wire(rec, {'kind': 'wire', 'cls': name, 'params': p, 'grid': grid, 'diam': [1.0, 1.4], 'kT': kT, 'explicit': 1.5})
+            case_wire(rec, {'kind': 'wire', 'cls': name, 'params': p, 'grid': grid, 'diam': [1.0, 1.4], 'kT': kT, 'explicit': 1.3, 'by_attribute': True})
             case_wire(rec, {'kind': 'wire', 'cls': name, 'params': p, 'grid': grid, 'diam': [dAs[0], dBs[-1]], 'kT': kT, 'explicit': 0.9})
     return rec.to_dict()
 
@@ -326,6 +366,7 @@ def run(rec, tier, seed):
             for g in grids:
                 items.append(('eval', name, p, g, nsig))
     for name in CLS:
+        items.append(('multi', name, len(PARAMS[name])))
         for p in params[name]:
             items.append(('hist', name, p, 3 if tier == 'quick' else 5))
     lat = [round(0.5 + 0.1 * i, 1) for i in range(36)]
